@@ -71,7 +71,8 @@ TEXT = {
          "re-queue, thread-exit hand-over, Bag::drop calls all, closure storage sound for every size/alignment, pops read and "
          "retire only on CAS success. 'Eventually' is not decided.", "4.5, 5/C15"),
  "C16": ("Decides guard counting, clear-on-outermost-only, the repin/reactivate_after sequences including the unwind edge, "
-         "&mut receivers, Guard: !Send + !Sync (witnesses), Local.epoch written only through self.", "4.5, 4.6, 5/C16"),
+         "&mut receivers, Guard: !Send + !Sync (witnesses), Local.epoch written only through self, and that no assertion "
+         "reachable from a Guard method fails on handle_count == 0 alone (F9, fixed).", "4.5, 4.6, 5/C16, 10.3"),
  "C17": ("Decides the predicate clause (head CAS control-dependent on predicate(next.data) for the very node installed, no "
          "reload) and the at-most-once clause (read/retire only on CAS success; push links with CAS-on-null and loops). "
          "FIFO order and linearizability are not decided.", "4.5, 5/C17"),
@@ -81,8 +82,9 @@ TEXT = {
          "(resolved callees, single path, operands in order); as_ref is None iff Tagged::is_null; ptr_eq is Tagged::ptr_eq; "
          "Eq is a marker impl. Lawfulness is then std's for Option<&T>.", "4.6, 5/C19"),
  "C20": ("Decides: no panicking TLS access (with only on a drop-free key; handle through try_with + fallback registration "
-         "on the same collector), the exiting thread's bag is handed over before unlinking, no handle/bag is forgotten. "
-         "Deadlock freedom and all TLS destruction orders are not decided.", "4.5, 5/C20"),
+         "on the same collector), the exiting thread's bag is handed over before unlinking, no handle/bag is forgotten, no "
+         "assertion reachable from a guard requires a handle (a guard outlives the fallback's temporary handle; F9, fixed). "
+         "Deadlock freedom and all TLS destruction orders are not decided.", "4.5, 5/C20, 10.3"),
 }
 NOTE = ("trusted base: rustc nightly MIR/const-eval/callee resolution, the mirfacts exporter, the circlint path reader and "
         "higher-order models (Result::map, array::from_fn, LocalKey::with, scopeguard); only the live cfg! arm (x86-64) and "
